@@ -13,6 +13,7 @@
 # limitations under the License.
 
 import ast
+import dis
 import base64
 import hashlib
 import inspect
@@ -287,6 +288,14 @@ def list_dotted_names(fn: Callable) -> Set[str]:
             local_vars = set()  # type: Set[str]
             local_vars.update(code_obj.co_varnames)
             local_vars.update(code_obj.co_cellvars)
+            # Since comprehensions are inlined (Python 3.12), their variables are listed with
+            # the locals of the function. A name the function also loads as a global is still a
+            # reference to that global (`[k * 2 for k in xs]` ... `+ k`).
+            local_vars.difference_update(
+                instruction.argval
+                for instruction in dis.get_instructions(code_obj)
+                if instruction.opname in ("LOAD_GLOBAL", "LOAD_NAME")
+            )
             result.difference_update(local_vars)
             # Also remove anything that dereferences a local variable
             to_remove = {
